@@ -365,6 +365,58 @@ Proof.
   - intros h k w Hp Hw. apply (I9 h k w Hp Hw).
 Qed.
 
+(* a creation that neither registers an early factory nor calls back into the factory (a post-processor
+   short-circuits instantiation, Model/FactoryX.v): push, callbacks, publish — seen as one step *)
+Lemma Inv_publish_fresh st st2 n v :
+  Inv st -> cached (reg st) n = false ->
+  reg st2 = mkR (L1 (reg st)) (L2 (reg st)) (L3 (reg st)) (n :: creating (reg st)) ->
+  flds st2 = flds st -> deps st2 = deps st -> owner v = n ->
+  Inv (set_reg st2 (end_create_ok (reg st2) n v)) /\
+  creating (end_create_ok (reg st2) n v) = creating (reg st).
+Proof.
+  intros [I1 I2 I3 I4 I5 I6 I7 I8 I9] Hunc Hr2 Hf Hd Ho.
+  assert (Hnin : ~ In n (creating (reg st))) by (intros H; rewrite (I2 n H) in Hunc; discriminate).
+  assert (Hl : alookup n (L1 (reg st)) = None /\ alookup n (L2 (reg st)) = None).
+  { unfold cached in Hunc. destruct (alookup n (L1 (reg st))); [discriminate|].
+    destruct (alookup n (L2 (reg st))); [cbn in Hunc; discriminate|]. split; reflexivity. }
+  destruct Hl as [Hl1 Hl2].
+  assert (Hcr' : creating (end_create_ok (reg st2) n v) = creating (reg st)).
+  { unfold end_create_ok, add_singleton. cbn [creating]. rewrite Hr2. cbn [creating]. apply set_remove_head. exact Hnin. }
+  assert (Hfo : forall h k, field_of (set_reg st2 (end_create_ok (reg st2) n v)) h k = field_of st h k).
+  { intros h k. unfold field_of. cbn [flds set_reg]. rewrite Hf. reflexivity. }
+  assert (Hdo : forall w, deps_of (set_reg st2 (end_create_ok (reg st2) n v)) w = deps_of st w).
+  { intros w. unfold deps_of. cbn [deps set_reg]. rewrite Hd. reflexivity. }
+  assert (Hcur : forall m, m <> n -> cur (end_create_ok (reg st2) n v) m = cur (reg st) m).
+  { intros m Hne. rewrite (cur_publish_neq (reg st2) n v m Hne). unfold cur. rewrite Hr2. reflexivity. }
+  assert (Hfn : forall h k w, P k -> In w (field_of st h k) -> owner w <> n).
+  { intros h k w Hp Hw He. pose proof (I6 h k w Hp Hw) as Hc. rewrite He in Hc. unfold cur in Hc.
+    rewrite Hl1, Hl2 in Hc. discriminate. }
+  split; [|exact Hcr'].
+  constructor; rewrite ?reg_set_reg; rewrite ?Hcr'.
+  - intros m Hm. unfold end_create_ok, add_singleton in Hm. cbn [L2 L3] in Hm. rewrite Hr2 in Hm. cbn [L2 L3] in Hm.
+    destruct (Nat.eq_dec m n) as [->|Hne].
+    + rewrite !alookup_aremove_eq in Hm. discriminate.
+    + rewrite !(alookup_aremove_neq n m _ Hne) in Hm. apply I1. exact Hm.
+  - intros m Hm. apply mono_end_create_ok. pose proof (I2 m Hm) as Hc. unfold cached in *. rewrite Hr2. exact Hc.
+  - intros m Hm. assert (Hne : m <> n) by (intros ->; contradiction).
+    unfold end_create_ok, add_singleton. cbn [L1]. rewrite (alookup_aset_neq n m v _ Hne). rewrite Hr2. cbn [L1].
+    apply I3. exact Hm.
+  - intros m w Hw. unfold end_create_ok, add_singleton in Hw. cbn [L1] in Hw.
+    destruct (Nat.eq_dec m n) as [->|Hne].
+    + rewrite alookup_aset_eq in Hw. injection Hw as <-. exact Ho.
+    + rewrite (alookup_aset_neq n m v _ Hne) in Hw. rewrite Hr2 in Hw. apply I4. exact Hw.
+  - intros m w Hw. unfold end_create_ok, add_singleton in Hw. cbn [L2] in Hw.
+    destruct (Nat.eq_dec m n) as [->|Hne].
+    + rewrite alookup_aremove_eq in Hw. discriminate.
+    + rewrite (alookup_aremove_neq n m _ Hne) in Hw. rewrite Hr2 in Hw. apply I5. exact Hw.
+  - intros h k w Hp Hw. rewrite Hfo in Hw. rewrite (Hcur _ (Hfn h k w Hp Hw)). apply (I6 h k w Hp Hw).
+  - intros h k w Hp Hw. rewrite Hfo in Hw. rewrite Hdo. apply (I7 h k w Hp Hw).
+  - intros h k w Hp Hw HL1 Hin. rewrite Hfo in Hw. pose proof (Hfn h k w Hp Hw) as Hon.
+    unfold end_create_ok, add_singleton in HL1. cbn [L1] in HL1. rewrite (alookup_aset_neq n _ v _ Hon) in HL1.
+    rewrite Hr2 in HL1. cbn [L1] in HL1. apply (I8 h k w Hp Hw HL1 Hin).
+  - intros h k w Hp Hw. rewrite Hfo in Hw. apply (I9 h k w Hp Hw).
+Qed.
+
 (* ---------- the specification of doGetComponent, by induction on fuel -------------------------------- *)
 
 Lemma cur_owner st m v : Inv st -> cur (reg st) m = Some v -> owner v = m.
